@@ -15,7 +15,7 @@ log = open(d + '/confirm.log').read()
 checks = {}
 for m in re.finditer(r'check (\w+) exit=(\d+)', log):
     out = open('%s/check_%s.out' % (d, m.group(1))).read().strip().split('\n')
-    checks[m.group(1)] = {'exit': int(m.group(2)), 'violations': [l.split(' obligation=')[1].split()[0] for l in out if l.startswith('VIOLATION')], 'summary': out[-1][:300]}
+    checks[m.group(1)] = {'exit': int(m.group(2)), 'violations': [re.sub(r'\s+(no-failing-input-found|counterexample=.*)$', '', l.split(' obligation=')[1]).strip() for l in out if l.startswith('VIOLATION')], 'summary': out[-1][:300]}
 suite = re.findall(r'^test result: (\w+)\. (\d+) passed; (\d+) failed', log, re.M)
 meta = {
  'id': sid, 'breaks_property': prop, 'what': what, 'needs_to_manifest': needs,
